@@ -54,13 +54,15 @@ inductive Outcome where
 def nbrsOf (m : MolView) (n : Nat) : Except PyErr (List (Nat × Bond)) := getKey m.bonds n
 
 /-- body of the `tetrahedrons` loop for one atom -/
-def isTetra (m : MolView) (na : Nat × HAtom) : Except PyErr Bool := do
+def isTetra (m : MolView) (na : Nat × HAtom) : Except PyErr Bool :=
   if na.2.z == 6 && na.2.charge == 0 && !na.2.radical then
-    let env ← nbrsOf m na.1
-    if env.all (fun mb => mb.2.order == 1) then
-      pure (!((env.map fun mb => mb.2.order).foldl (· + ·) 0 > 4))
-    else pure false
-  else pure false
+    match nbrsOf m na.1 with
+    | .error e => .error e
+    | .ok env =>
+      if env.all (fun mb => mb.2.order == 1) then
+        .ok (!((env.map fun mb => mb.2.order).foldl (· + ·) 0 > 4))
+      else .ok false
+  else .ok false
 
 def exFilterM {α : Type} (p : α → Except PyErr Bool) : List α → Except PyErr (List α)
   | [] => pure []
@@ -70,9 +72,10 @@ def exFilterM {α : Type} (p : α → Except PyErr Bool) : List α → Except Py
     pure (if b then a :: r else r)
 
 /-- `MoleculeStereo.tetrahedrons` -/
-def tetrahedrons (m : MolView) : Except PyErr (List Nat) := do
-  let l ← exFilterM (isTetra m) m.atoms
-  pure (l.map (·.1))
+def tetrahedrons (m : MolView) : Except PyErr (List Nat) :=
+  match exFilterM (isTetra m) m.atoms with
+  | .error e => .error e
+  | .ok l => .ok (l.map (·.1))
 
 def exMapM {α β : Type} (f : α → Except PyErr β) : List α → Except PyErr (List β)
   | [] => pure []
@@ -87,26 +90,47 @@ def exAllM {α : Type} (p : α → Except PyErr Bool) : List α → Except PyErr
     let b ← p a
     if b then exAllM p tl else pure false
 
-/-- `stereogenic_tetrahedrons`: `single z` = `is_forming_single_bonds` of the element with atomic number `z` -/
-def stereogenicOne (single : Nat → Bool) (m : MolView) (n : Nat) : Except PyErr (Option (Nat × List Nat)) := do
-  let nb ← nbrsOf m n
-  -- `any(not atoms[x].is_forming_single_bonds for x in bonds[n])`
-  let okAll ← exAllM (fun (mb : Nat × Bond) => do let a ← getKey m.atoms mb.1; pure (single a.z)) nb
-  if !okAll then pure none else
-  let env ← exFilterM (fun (mb : Nat × Bond) => do let a ← getKey m.atoms mb.1; pure (a.z != 1)) nb
-  let env := env.map (·.1)
-  if env.length == 3 || env.length == 4 then pure (some (n, env)) else pure none
+/-- `atoms[x].is_forming_single_bonds` for a neighbour; `single z` = the flag of the element with atomic number `z` -/
+def nbrSingle (single : Nat → Bool) (m : MolView) (mb : Nat × Bond) : Except PyErr Bool :=
+  match getKey m.atoms mb.1 with
+  | .error e => .error e
+  | .ok a => .ok (single a.z)
+
+/-- `atoms[x] != H` -/
+def nbrHeavy (m : MolView) (mb : Nat × Bond) : Except PyErr Bool :=
+  match getKey m.atoms mb.1 with
+  | .error e => .error e
+  | .ok a => .ok (a.z != 1)
+
+/-- `stereogenic_tetrahedrons`, one atom of `tetrahedrons` -/
+def stereogenicOne (single : Nat → Bool) (m : MolView) (n : Nat) : Except PyErr (Option (Nat × List Nat)) :=
+  match nbrsOf m n with
+  | .error e => .error e
+  | .ok nb =>
+    -- `any(not atoms[x].is_forming_single_bonds for x in bonds[n])`
+    match exAllM (nbrSingle single m) nb with
+    | .error e => .error e
+    | .ok okAll =>
+      if !okAll then .ok none else
+      match exFilterM (nbrHeavy m) nb with
+      | .error e => .error e
+      | .ok env =>
+        if (env.map (·.1)).length == 3 || (env.map (·.1)).length == 4 then .ok (some (n, env.map (·.1))) else .ok none
 
 def stereogenicFrom (single : Nat → Bool) (m : MolView) : List Nat → Except PyErr (List (Nat × List Nat))
-  | [] => pure []
-  | n :: tl => do
-    let x ← stereogenicOne single m n
-    let r ← stereogenicFrom single m tl
-    pure (match x with | some e => e :: r | none => r)
+  | [] => .ok []
+  | n :: tl =>
+    match stereogenicOne single m n with
+    | .error e => .error e
+    | .ok x =>
+      match stereogenicFrom single m tl with
+      | .error e => .error e
+      | .ok r => .ok (match x with | some e => e :: r | none => r)
 
-def stereogenicTetrahedrons (single : Nat → Bool) (m : MolView) : Except PyErr (List (Nat × List Nat)) := do
-  let t ← tetrahedrons m
-  stereogenicFrom single m t
+def stereogenicTetrahedrons (single : Nat → Bool) (m : MolView) : Except PyErr (List (Nat × List Nat)) :=
+  match tetrahedrons m with
+  | .error e => .error e
+  | .ok t => stereogenicFrom single m t
 
 /-! ## one pass of `__differentiation` over the groups -/
 
@@ -118,11 +142,16 @@ def dedupInts : List Int → List Int
   | [] => []
   | x :: tl => x :: (dedupInts tl).filter (· != x)
 
-/-- `sorted(env, key=morgan.get)` — stable; a missing key would compare `None` with `int` (TypeError): modelled as KeyError -/
-def sortEnv (morgan : Weights) (env : List Nat) : Except PyErr (List Nat) := do
-  let keyed ← exMapM (fun x => do let v ← mget morgan x; pure (x, v)) env
-  pure ((sortBy byValue keyed).map (·.1))
+def keyOf (morgan : Weights) (n : Nat) : Except PyErr (Nat × Int) :=
+  match mget morgan n with
+  | .error e => .error e
+  | .ok v => .ok (n, v)
 
+/-- `sorted(env, key=morgan.get)` — stable; a missing key would compare `None` with `int` (TypeError): modelled as KeyError -/
+def sortEnv (morgan : Weights) (env : List Nat) : Except PyErr (List Nat) :=
+  match exMapM (keyOf morgan) env with
+  | .error e => .error e
+  | .ok keyed => .ok ((sortBy byValue keyed).map (·.1))
 
 structure PassState where
   update : List (Nat × Int)        -- `morgan_update` (insertion order)
@@ -146,10 +175,9 @@ def negOf (morgan : Weights) (n : Nat) : Except PyErr (Nat × Int) :=
   | .error e => .error e
   | .ok v => .ok (n, -v)
 
-def keyOf (morgan : Weights) (n : Nat) : Except PyErr (Nat × Int) :=
-  match mget morgan n with
-  | .error e => .error e
-  | .ok v => .ok (n, v)
+/-- `if 0 < len(s) < len(group): for m in s: morgan_update[m] = -morgan[m]` -/
+def updatesOf (morgan : Weights) (s group : List Nat) : Except PyErr (List (Nat × Int)) :=
+  if 0 < s.length && s.length < group.length then exMapM (negOf morgan) s else .ok []
 
 /-- the body of `for group in grouped_stereo.values()` -/
 def processGroup (tetra : List (Nat × List Nat)) (labels : List (Nat × Bool)) (morgan : Weights)
@@ -168,7 +196,7 @@ def processGroup (tetra : List (Nat × List Nat)) (labels : List (Nat × Bool)) 
           match exFilterM (signOf tetra labels morgan) group with
           | .error e => .error e
           | .ok s =>
-            match (if 0 < s.length && s.length < group.length then exMapM (negOf morgan) s else .ok []) with
+            match updatesOf morgan s group with
             | .error e => .error e
             | .ok upd => .ok { st with update := st.update ++ upd, discard := st.discard ++ group }
         else .ok { st with groups := st.groups ++ [group] }
